@@ -142,7 +142,7 @@ def check(run):
         "K/C12: msm_best's own window loop for c >= 10 (>= 8104 bases): window count NUM_BITS/c + 1 is decided by C12.K.booth.msm_best.windows, the batch-affine adder by "
         "C12.K.batch_add.*, but the loop that puts them together (Schedule, Jacobian buckets, per-window shift `for _ in 0..c*w`, final sum) is not executed",
         "K/C12 msm_serial directly on the toy CURVE's coordinates (harnesses c12::msm_serial_e139_n1/n2, kept in the source, not registered): the solver would have to "
-        "rediscover the group law through 50 chord-and-tangent steps; no answer in 15 min. Replaced by Z_163 + the proved isomorphism",
+        "rediscover the group law through ~50 chord-and-tangent steps; no answer in 30 min. Replaced by Z_163 + the proved isomorphism",
         "K/C12 msm_serial with full-range symbolic bases AND two or more symbolic scalars in Z_163 (c12::msm_serial_dlog163_n2/n3) or weights -2..=2 with 3 bases: "
         "products of independent unknowns, no answer in 15 min; the unit-vector family decides the same coefficients one at a time",
     ]
